@@ -169,7 +169,16 @@ def pl_frame_case(v, arrangement, N, opts):
             asserts.append(("verdict", claim))
         asserts.append(("depth/" + (eff if opts.get("depth") else ("default_lazyframe_schema_only" if lazyframe else "default_dataframe_full_depth")), claim))
         facts["depth"] = eff
-    if opts.get("drop") and not nan:
+    label_ok = True
+    if opts.get("drop") and not nan and not opts.get("add_missing"):
+        lspec = O.FrameSpec({"a": O.FieldSpec("float", coerce=bool(coerce)), "b": O.FieldSpec("int", required=True, coerce=(coerce == "schema"))},
+                            strict=opts.get("strict", False), ordered=bool(opts.get("ordered")))
+        label_ok, why = lspec.label_level_ok(arr)
+        if not label_ok:
+            # violations that are not attributable to rows (wrong dtype, missing column, column not in schema) are still raised
+            asserts.append(("drop/non_row_violation_raised", v.holds(o["kind"] == "SchemaErrors")))
+            facts["label_level"] = why
+    if opts.get("drop") and not nan and label_ok:
         asserts += drop_asserts(v, o, df, snap, arr, N, dict(nullable=nullable, unique_a=unique_a, lo=lo, ca=ca, cb=cb, joint=opts.get("unique"),
                                                                 coerce=coerce, depth_data=(depth is not None or not lazyframe) and opts.get("depth") != "SO"))
     if opts.get("compare_eager") and lazy:
@@ -820,6 +829,10 @@ def drop_cases(tier):
                   dict(drop=True, lazyframe=True), dict(drop=True, lazyframe=True, depth="SAD")):
             out.append((_tid("DROP", ["a", "b"], N, o), pl_frame_case, (["a", "b"], N, dict(o, fixpoint=False))))
         out.append((_tid("DROP", ["a", "b", "x"], N, dict(drop=True, strict="filter")), pl_frame_case, (["a", "b", "x"], N, dict(drop=True, strict="filter", fixpoint=False))))
+        if N == 2:  # violations that dropping rows cannot resolve
+            out.append((_tid("DROP", ["a", "b"], N, dict(drop=True, a_kind="int")), pl_frame_case, (["a", "b"], N, dict(drop=True, a_kind="int", fixpoint=False))))
+            out.append((_tid("DROP", ["a"], N, dict(drop=True)), pl_frame_case, (["a"], N, dict(drop=True, fixpoint=False))))
+            out.append((_tid("DROP", ["a", "b", "x"], N, dict(drop=True, strict=True)), pl_frame_case, (["a", "b", "x"], N, dict(drop=True, strict=True, fixpoint=False))))
     return out
 
 
